@@ -17,6 +17,8 @@ var substTable = map[string]string{
 	"crypto/sha512.Sum512":                           "SHA512Sum512",
 	"crypto/md5.Sum":                                 "MD5Sum",
 	"golang.org/x/crypto/hkdf.New":                   "HKDFNew",
+	"golang.org/x/crypto/hkdf.Extract":               "HKDFExtract",
+	"golang.org/x/crypto/hkdf.Expand":                "HKDFExpand",
 	"golang.org/x/crypto/chacha20poly1305.New":       "AEADNew",
 	"crypto/ed25519.GenerateKey":                     "Ed25519GenerateKey",
 	"crypto/ed25519.Sign":                            "Ed25519Sign",
@@ -58,6 +60,15 @@ var substTable = map[string]string{
 	"net/http.Error":             "HTTPError",
 	"(*net/http.Response).Write": "ResponseWrite",
 	"crypto/rand.Read":           "RandRead",
+	"os.CreateTemp":              "CreateTemp",
+	"io/ioutil.TempFile":         "CreateTemp",
+	"(*os.File).Seek":            "FileSeek",
+	"(*os.File).Truncate":        "FileTruncate",
+	"os.Truncate":                "Truncate",
+	"(*os.File).Stat":            "FileStat",
+	"os.RemoveAll":               "RemoveAll",
+	"os.Mkdir":                   "Mkdir",
+	"(*os.File).ReadAt":          "FileReadAt",
 }
 
 func registerSubst(P *Program) error {
